@@ -232,6 +232,92 @@ example : decodeImageData { width := 2, height := 1, bitDepth := 8, colorType :=
     (filterRows 4 [4] [[[1, 2, 3, 4], [5, 6, 7, 8]].flatten] (List.replicate 8 0))
     = .ok ([1, 2, 3, 5, 6, 7], some [4, 8]) := by decide
 
+/-! ## from the file bytes: chunk walk, IDAT concatenation, decode (8-bit layouts) -/
+
+/-- PARTIAL (see FULL above): a whole PNG *file* — signature, IHDR (bit depth 8, colour type
+0/2/4/6, not interlaced), the zlib stream cut into any number of IDAT chunks at arbitrary places,
+IEND — for any image size and any per-row filter choice, with zlib inflate as the external
+parameter (`hinfl`: it returns the scanline stream the reference filter produced).  The decoder
+returns exactly the supplied colour samples and, for the alpha layouts, the supplied alpha
+samples.  (CRC values are whatever the reference encoder wrote; the decoder ignores them.) -/
+theorem C24_png8_file_partial (inflate : Inflate) (w h ctb : Nat) (ct : ColorType)
+    (zs : List (List Nat)) (img : List (List (List Nat))) (fts : List Nat)
+    (hct : ColorType.fromByte ctb = some ct) (hnp : ct ≠ .palette)
+    (hw : 0 < w ∧ w < 4294967296) (hh : 0 < h ∧ h < 4294967296)
+    (hsz : h * (w * ct.channels + 1) < usizeMax)
+    (hz : zs ≠ [] ∧ ∀ z ∈ zs, z.length < 4294967296)
+    (hinfl : inflate zs.flatten = .ok (filterRows ct.channels fts (img.map List.flatten)
+              (List.replicate (w * ct.channels) 0)))
+    (hi : img.length = h) (hr : ∀ r ∈ img, r.length = w)
+    (hp : ∀ r ∈ img, ∀ p ∈ r, p.length = ct.channels ∧ ∀ x ∈ p, x < 256)
+    (hf : fts.length = img.length) (hfv : ∀ f ∈ fts, f ≤ 4) :
+    decodePng inflate
+        (signature ++ (Spec.C24Png.chunk "IHDR"
+            (Spec.C24Png.be32 w ++ Spec.C24Png.be32 h ++ [8, ctb, 0, 0, 0]) ++
+          ((zs.map (Spec.C24Png.chunk "IDAT")).flatten ++ Spec.C24Png.chunk "IEND" []))) =
+      .ok { width := w, height := h, bitDepth := 8, colorType := ct,
+            imageData := if ct.hasAlpha then (img.flatten.map (List.take (ct.channels - 1))).flatten
+                         else img.flatten.flatten,
+            alphaData := if ct.hasAlpha then
+                           some (img.flatten.map (List.drop (ct.channels - 1))).flatten
+                         else none,
+            palette := none, trns := none } := by
+  -- the state after the chunk walk
+  let st2 : Decoder := { width := w, height := h, bitDepth := 8, colorType := ct, idat := zs,
+                         hasIhdr := true }
+  have hwalk : ∀ fuel, zs.length + 2 ≤ fuel →
+      walk fuel (Spec.C24Png.chunk "IHDR"
+            (Spec.C24Png.be32 w ++ Spec.C24Png.be32 h ++ [8, ctb, 0, 0, 0]) ++
+          ((zs.map (Spec.C24Png.chunk "IDAT")).flatten ++ Spec.C24Png.chunk "IEND" [])) {} = .ok st2 := by
+    intro fuel hfu
+    obtain ⟨F, rfl⟩ : ∃ F, fuel = ((F + 1) + zs.length) + 1 := ⟨fuel - zs.length - 2, by omega⟩
+    rw [walk_IHDR _ _ _ _ (by simp [Spec.C24Png.be32]),
+      processIhdr_ok {} w h 8 ctb ct hw.2 hh.2 hct]
+    simp only []
+    rw [walk_IDATs zs (F + 1) _ _ hz.2]
+    have := walk_IEND F [] st2
+    rw [List.append_nil] at this
+    simp only [List.nil_append]
+    exact this
+  have hlenz := idat_chunks_length zs
+  unfold decodePng
+  have hsig : ¬ ((signature ++ (Spec.C24Png.chunk "IHDR"
+            (Spec.C24Png.be32 w ++ Spec.C24Png.be32 h ++ [8, ctb, 0, 0, 0]) ++
+          ((zs.map (Spec.C24Png.chunk "IDAT")).flatten ++ Spec.C24Png.chunk "IEND" []))).length < 8 ∨
+      (signature ++ (Spec.C24Png.chunk "IHDR"
+            (Spec.C24Png.be32 w ++ Spec.C24Png.be32 h ++ [8, ctb, 0, 0, 0]) ++
+          ((zs.map (Spec.C24Png.chunk "IDAT")).flatten ++ Spec.C24Png.chunk "IEND" []))).take 8 ≠ signature) := by
+    simp [signature]
+  rw [if_neg hsig]
+  have hdrop : (signature ++ (Spec.C24Png.chunk "IHDR"
+            (Spec.C24Png.be32 w ++ Spec.C24Png.be32 h ++ [8, ctb, 0, 0, 0]) ++
+          ((zs.map (Spec.C24Png.chunk "IDAT")).flatten ++ Spec.C24Png.chunk "IEND" []))).drop 8 =
+      Spec.C24Png.chunk "IHDR"
+            (Spec.C24Png.be32 w ++ Spec.C24Png.be32 h ++ [8, ctb, 0, 0, 0]) ++
+          ((zs.map (Spec.C24Png.chunk "IDAT")).flatten ++ Spec.C24Png.chunk "IEND" []) := by
+    simp [signature]
+  have hsl : signature.length = 8 := rfl
+  rw [hdrop, hwalk _ (by simp only [List.length_append]; omega)]
+  have hne : zs.isEmpty = false := by
+    cases zs with
+    | nil => exact absurd rfl hz.1
+    | cons _ _ => rfl
+  have hdec := C24_png8_samples_partial st2 img fts rfl hnp hi hr hp hf hfv hsz
+  simp only [st2] at hdec ⊢
+  simp only [Bool.not_true, Bool.false_eq_true, if_false, hne, hinfl]
+  rw [if_neg (by omega), hdec]
+  cases hα : ct.hasAlpha <;> simp
+
+example : ∃ d, decodePng (fun _ => .ok (filterRows 4 [1] [[[1, 2, 3, 4], [5, 6, 7, 8]].flatten]
+      (List.replicate 8 0)))
+    (signature ++ (Spec.C24Png.chunk "IHDR"
+        (Spec.C24Png.be32 2 ++ Spec.C24Png.be32 1 ++ [8, 6, 0, 0, 0]) ++
+      (([[0x78, 1], [9]].map (Spec.C24Png.chunk "IDAT")).flatten ++ Spec.C24Png.chunk "IEND" [])))
+    = .ok d ∧ d.imageData = [1, 2, 3, 5, 6, 7] ∧ d.alphaData = some [4, 8] :=
+  ⟨_, C24_png8_file_partial _ 2 1 6 .rgbAlpha [[0x78, 1], [9]] [[[1, 2, 3, 4], [5, 6, 7, 8]]] [1]
+      rfl (by decide) (by decide) (by decide) (by decide) (by decide) rfl rfl (by decide)
+      (by decide) rfl (by decide), rfl, rfl⟩
+
 /-! ## what the image object carries into the document -/
 
 /-- Whatever `from_png_data` accepts is declared 8 bits per component, with the decoded bytes as
